@@ -318,3 +318,92 @@ def run_dispatch_cases(cases):
         ph.session_manager.sessions.clear()
     loop.close()
     return out
+
+
+
+def run_overlapping_dispatch(pairs):
+    """two requests overlapping on ONE server: the first one's tool (or resource / custom handler)
+    waits until the second request has been answered.  pairs: list of (mclassA, idcA, mclassB, idcB).
+    Returns the per-request records (same shape as run_dispatch_cases)."""
+    from chuk_mcp.protocol.messages.json_rpc_message import parse_message
+
+    out = []
+
+    async def one(ma, ia, mb, ib):
+        srv = _mk_server()
+        ph = srv.protocol_handler
+        gate = asyncio.Event()
+
+        async def slow_tool(**kw):
+            await gate.wait()
+            return "slow done"
+
+        async def slow_raises(**kw):
+            await gate.wait()
+            raise RuntimeError("slow tool exploded")
+
+        async def slow_res():
+            await gate.wait()
+            return "slow content"
+
+        srv.register_tool("slow", slow_tool, {"type": "object"}, "waits")
+        srv.register_tool("slowraises", slow_raises, {"type": "object"}, "waits then raises")
+        srv.register_resource("file:///slow", slow_res)
+
+        def body(m, idc):
+            rid = concrete_id(idc)
+            if m == "slowTool":
+                return {"jsonrpc": "2.0", "id": rid, "method": "tools/call", "params": {"name": "slow", "arguments": {}}}
+            if m == "slowToolRaises":
+                return {"jsonrpc": "2.0", "id": rid, "method": "tools/call", "params": {"name": "slowraises", "arguments": {}}}
+            if m == "slowResource":
+                return {"jsonrpc": "2.0", "id": rid, "method": "resources/read", "params": {"uri": "file:///slow"}}
+            b = {"jsonrpc": "2.0", "id": rid, "method": METHOD_CLASSES[m]}
+            p = _params(m, "ok")
+            if p != "ABSENT":
+                b["params"] = p
+            return b
+
+        res = {}
+
+        async def call(tag_, b):
+            try:
+                r = await ph.handle_message(parse_message(b), None)
+                res[tag_] = ("ok", r, b)
+            except BaseException as e:  # noqa
+                res[tag_] = ("raised", type(e).__name__, b)
+
+        ta = asyncio.ensure_future(call("A", body(ma, ia)))
+        await asyncio.sleep(0)
+        await asyncio.sleep(0)
+        tb = asyncio.ensure_future(call("B", body(mb, ib)))
+        await tb
+        gate.set()
+        await ta
+        recs = []
+        for tag_, (m, idc) in (("A", (ma, ia)), ("B", (mb, ib))):
+            st, r, b = res[tag_]
+            obs = {"built": True, "raised": st == "raised", "exc": r if st == "raised" else "", "shape": "none", "idok": False, "iserr": False, "code": 0, "lineok": False}
+            if st == "ok" and isinstance(r, tuple) and len(r) == 2 and r[0] is not None and hasattr(r[0], "model_dump_json"):
+                d = json.loads(r[0].model_dump_json(exclude_none=True))
+                obs["shape"] = "response"
+                obs["lineok"] = d.get("jsonrpc") == "2.0" and (("result" in d) != ("error" in d))
+                obs["idok"] = "id" in d and d["id"] == b["id"] and type(d["id"]) is type(b["id"])
+                if "error" in d:
+                    obs["iserr"] = True
+                    c = d["error"].get("code")
+                    obs["code"] = c if isinstance(c, int) and abs(c) < 2**31 else 0
+            elif st == "ok" and isinstance(r, tuple) and len(r) == 2 and r[0] is None:
+                obs["shape"] = "none"
+            elif st == "ok":
+                obs["shape"] = "nonsense"
+            recs.append({"kind": "request", "mclass": {"slowTool": "toolsCallOk", "slowToolRaises": "toolsCallRaises", "slowResource": "resReadOk"}.get(m, m), "pshape": "ok", "idc": idc, "typed": False,
+                         "overlap": tag_ + ":" + ma + "+" + mb, "obs": obs})
+        return recs
+
+    async def main():
+        for p in pairs:
+            out.extend(await one(*p))
+
+    asyncio.run(main())
+    return out
